@@ -2,7 +2,7 @@
 import math, random
 
 
-def render_lines(text, rnd=None, layout=0, cond_expr=False):
+def render_lines(text, rnd=None, layout=0, cond_expr=False, lits=None):
     """Abstract lines -> DIP text.
     layout 0: 2 blanks per level; 1: 4 blanks; 2: 1 blank; 3: per-level widths chosen at random (consistent),
     plus interleaved blank lines / comment lines / trailing comments for layouts >= 1."""
@@ -18,6 +18,9 @@ def render_lines(text, rnd=None, layout=0, cond_expr=False):
         name = ".".join(ln["nm"])
         if k == "grp":
             s = f"{ind}{name}"
+        elif k == "def" and lits is not None:
+            L = lits[ln["_j"]]
+            s = f"{ind}{name} {L['decl']} = {L['txt']}" + (f" {L['unit']}" if L["unit"] else "")
         elif k == "def":
             s = f"{ind}{name} int = {ln['v']}"
         elif k == "mod":
@@ -33,7 +36,7 @@ def render_lines(text, rnd=None, layout=0, cond_expr=False):
             s = f"{ind}@end"
         else:
             raise ValueError(k)
-        if layout >= 1 and rnd is not None:
+        if layout >= 1 and rnd is not None and "\n" not in s:
             r = rnd.random()
             if r < 0.15:
                 out.append("")
@@ -45,9 +48,26 @@ def render_lines(text, rnd=None, layout=0, cond_expr=False):
     return "\n".join(out) + "\n"
 
 
+_FAST = [False]
+
+
+def speedup():
+    """DIP() and add_string() call inspect.stack() only to record which file created them (7 ms per call,
+    90 % of a small parse).  Give them a constant caller instead; nothing else depends on it."""
+    if _FAST[0]:
+        return
+    import collections
+    from scinumtools.dip import dip as M
+    FI = collections.namedtuple("FI", "filename lineno")
+    M.stack = lambda: [(None,), (None,)]
+    M.getframeinfo = lambda frame: FI(__file__, 1)
+    _FAST[0] = True
+
+
 def parse_dip(text_str, base_env=None):
     """-> ('ok', env) | ('err', exception name, message)"""
     from scinumtools.dip import DIP
+    speedup()
     try:
         with DIP(base_env) if base_env is not None else DIP() as p:
             p.add_string(text_str)
